@@ -109,7 +109,7 @@ SPECS = {
     "C11": S(profiles=[("soft", 0.8), ("groups", 0.2)], projection="PExec",
              chk="fun c obs => chk_C11 (cs_beh c) (cs_hist c) obs",
              rule="non-trivial: a soft group parameter was built while the group has >=1 registered feeder"),
-    "C12": S(profiles=[("decor", 1.0)], projection="PExec",
+    "C12": S(profiles=[("decor", 0.7), ("dfaults", 0.3)], projection="PExec",
              chk="fun c obs => chk_C12 (cs_beh c) (cs_hist c) obs",
              rule="non-trivial: a decorator executed and some consumer received its output"),
     "C13": S(profiles=[("faults", 0.35), ("gfaults", 0.25), ("gaps", 0.2), ("cycles", 0.2)], projection="PChain", flags=True,
